@@ -50,8 +50,12 @@ type override struct {
 	KeyPos  *int   `json:"keypos"`
 	// crafted authenticated plaintext (C18): "zero" (a zero-length chunk before every data chunk), "overlen" (length field
 	// above 0x3FFF), "full" (0x3FFF-byte chunks), "atyp-N" (address type N in a bad address), "domlen-N" (domain of N bytes),
-	// "trunc-N" (address header cut after N bytes), "slow" (the target reads 512 bytes every 2 ms)
+	// "trunc-N" (address header cut after N bytes), "slow" (the target reads 512 bytes every 2 ms), "pause" (the target does
+	// not read at all for 400 ms, then reads everything), "dialpanic" (fault injection: the StreamDialer given to
+	// SetTargetDialer panics when connection 1 is dialled)
 	Craft string `json:"craft"`
+	// DataSize forces the payload size of every data token (large uploads)
+	DataSize int `json:"datasize"`
 	// the service has NO keys (key-list size 0): every opener fails authentication
 	EmptyKeys bool `json:"emptykeys"`
 }
@@ -183,6 +187,8 @@ type behRec struct {
 	HandlersAtServeReturn  int    `json:"handlersAtServeReturn"`
 	ListenerClosedByScript bool   `json:"listenerClosedByScript"`
 	Panics                 int    `json:"panics"`
+	InjectedPanics         int    `json:"injectedPanics"`
+	Accepted               int    `json:"accepted"`
 	WallMs                 int64  `json:"wallMs"`
 }
 
@@ -204,6 +210,7 @@ type cconn struct {
 	hasBadSent                                bool
 	cancelled                                 bool
 	slow                                      bool
+	pause                                     bool
 	tcl                                       string
 	ndataSent                                 int
 	crst                                      bool
@@ -213,10 +220,12 @@ type cconn struct {
 }
 
 type mapDialer struct {
-	mu      sync.Mutex
-	b       *board
-	targets map[string]*cconn // requested address -> connection
-	priming bool
+	mu       sync.Mutex
+	b        *board
+	targets  map[string]*cconn // requested address -> connection
+	priming  bool
+	panicFor int // fault injection: panic when this connection is dialled (0: never)
+	injected int
 }
 
 func (d *mapDialer) DialStream(ctx context.Context, addr string) (transport.StreamConn, error) {
@@ -226,6 +235,13 @@ func (d *mapDialer) DialStream(ctx context.Context, addr string) (transport.Stre
 	d.mu.Unlock()
 	if cc == nil || priming {
 		return nil, fmt.Errorf("harness: no target for %q", addr)
+	}
+	if d.panicFor == cc.plan.C {
+		d.mu.Lock()
+		d.injected++
+		d.mu.Unlock()
+		var np *connPlan
+		_ = np.C // injected fault: nil dereference inside the handler of this ONE connection
 	}
 	var dl net.Dialer
 	var real string
@@ -333,6 +349,9 @@ func runBehaviour(idx int, beh behaviour, opt options) ([]*caseRec, *behRec) {
 	timeout := time.Duration(opt.timeoutMs) * time.Millisecond
 	b := newBoard()
 	dialer := &mapDialer{b: b, targets: map[string]*cconn{}}
+	if beh.Ov != nil && beh.Ov.Craft == "dialpanic" {
+		dialer.panicFor = 1
+	}
 	handler := service.NewStreamHandler(auth, timeout)
 	handler.SetTargetDialer(dialer)
 	denyHandler := service.NewStreamHandler(auth, timeout) // the repository's default (validating) dialer
@@ -347,7 +366,16 @@ func runBehaviour(idx int, beh behaviour, opt options) ([]*caseRec, *behRec) {
 
 	serveDone := make(chan struct{})
 	go func() {
-		service.StreamServe(service.WrapStreamAcceptFunc(ln.AcceptTCP), func(ctx context.Context, conn transport.StreamConn) {
+		service.StreamServe(func() (transport.StreamConn, error) {
+			c, err := ln.AcceptTCP()
+			if err != nil {
+				return nil, err
+			}
+			b.mu.Lock()
+			b.accepted++
+			b.mu.Unlock()
+			return c, nil
+		}, func(ctx context.Context, conn transport.StreamConn) {
 			port := conn.RemoteAddr().(*net.TCPAddr).Port
 			c := -1
 			b.wait(2*time.Second, func() bool {
@@ -365,6 +393,7 @@ func runBehaviour(idx int, beh behaviour, opt options) ([]*caseRec, *behRec) {
 			defer func() {
 				b.mu.Lock()
 				b.running--
+				b.finished++
 				b.mu.Unlock()
 				b.update(c, func(o *connObs) { o.handled = true })
 			}()
@@ -385,7 +414,7 @@ func runBehaviour(idx int, beh behaviour, opt options) ([]*caseRec, *behRec) {
 		})
 		b.mu.Lock()
 		b.serveReturned = true
-		b.handlersAtServeReturn = b.running
+		b.handlersAtServeReturn = b.accepted - b.finished // accepted connections whose handler has not returned
 		b.mu.Unlock()
 		b.cond.Broadcast()
 		close(serveDone)
@@ -456,6 +485,7 @@ func runBehaviour(idx int, beh behaviour, opt options) ([]*caseRec, *behRec) {
 		cc.plan = buildPlan(rng, c, sc.Hs, sc.Tk, keys[pos], kinds[c], ntgt[c], req, atyp, beh.Ov, func(p *connPlan) { primes = append(primes, p) })
 		cc.plan.KeyPos = pos
 		cc.slow = beh.Ov != nil && beh.Ov.Craft == "slow"
+		cc.pause = beh.Ov != nil && beh.Ov.Craft == "pause"
 		switch sc.Tk {
 		case "ok":
 			cc.tln, err = net.ListenTCP("tcp", &net.TCPAddr{IP: net.IPv4(127, 0, 0, 1)})
@@ -588,6 +618,9 @@ func runBehaviour(idx int, beh behaviour, opt options) ([]*caseRec, *behRec) {
 			w := await
 			if stalled[pe.C] {
 				w = 0 // what follows a missing observation of the same connection is not waited for again
+			}
+			if x := conns[pe.C]; x != nil && x.pause && (pe.A == "TRecv" || pe.A == "TSawFin") {
+				continue // the target itself is not reading yet
 			}
 			if !b.wait(w, obsHolds(pe)) {
 				stalled[pe.C] = true
@@ -735,6 +768,9 @@ func runBehaviour(idx int, beh behaviour, opt options) ([]*caseRec, *behRec) {
 		if stalledEnd[pe.C] {
 			w = 0
 		}
+		if x := conns[pe.C]; x != nil && x.pause && (pe.A == "TRecv" || pe.A == "TSawFin") {
+			continue
+		}
 		if !b.wait(w, obsHolds(pe)) {
 			stalledEnd[pe.C] = true
 			if cs := conns[pe.C]; cs != nil {
@@ -794,7 +830,11 @@ func runBehaviour(idx int, beh behaviour, opt options) ([]*caseRec, *behRec) {
 	for c := 1; c <= nconn; c++ {
 		cc := conns[c]
 		if cc.tconn != nil && !cc.trst {
-			b.wait(500*time.Millisecond, func() bool { return b.get(c).targetDone })
+			tw := 500 * time.Millisecond
+			if cc.pause {
+				tw = 5 * time.Second
+			}
+			b.wait(tw, func() bool { return b.get(c).targetDone })
 		}
 		if cc.conn != nil {
 			cc.conn.Close()
@@ -815,6 +855,10 @@ func runBehaviour(idx int, beh behaviour, opt options) ([]*caseRec, *behRec) {
 	b.mu.Lock()
 	br.ServeReturned = b.serveReturned
 	br.HandlersAtServeReturn = b.handlersAtServeReturn
+	br.Accepted = b.accepted
+	dialer.mu.Lock()
+	br.InjectedPanics = dialer.injected
+	dialer.mu.Unlock()
 	var out []*caseRec
 	for c := 1; c <= nconn; c++ {
 		cc := conns[c]
@@ -883,6 +927,9 @@ func targetAccept(b *board, cc *cconn) {
 	buf := make([]byte, 32768)
 	if cc.slow {
 		buf = buf[:512]
+	}
+	if cc.pause {
+		time.Sleep(400 * time.Millisecond)
 	}
 	for {
 		if cc.slow {
